@@ -12,7 +12,7 @@ RULE = ("cases = (row-length vector, dtype, value pattern, constructor) and (n, 
 ASSUMPTIONS = ["oracle = the input rows themselves; geometry = exclusive prefix sum in Python ints",
                "numpy's astype on one row is the reference for type conversion",
                "save/load is exercised as a round trip through a per-run temp directory only"]
-REQUIRED_FEATURES = ["empty_row_first", "empty_row_last", "consecutive_empty_rows", "all_rows_empty", "zero_rows",
+REQUIRED_FEATURES = ["rows_of_different_dtypes", "empty_row_first", "empty_row_last", "consecutive_empty_rows", "all_rows_empty", "zero_rows",
                      "mismatch_rejected", "numpy_roundtrip", "offsets_form", "long_repr", "non_rectangular_refused", "non_contiguous_input"]
 BOUNDS = {"quick": "LV(4,3) x 9 dtypes x 2 value patterns x 5 constructors, all readers; size mismatch -1,+1,0,2x; "
                    "from/to_numpy_array for n,m<=4 x 9 dtypes; one array of 120 cells (long repr branch)",
@@ -41,6 +41,8 @@ def cases(shard, tier):
                 for c in CTORS:
                     yield ["rows", shard["lens"], dt, k, c]
         yield ["mismatch", shard["lens"]]
+        for k in range(5):
+            yield ["mixed", shard["lens"], k]
     elif "np" in shard:
         for n in range(shard["np"] + 1):
             for m in range(shard["np"] + 1):
@@ -70,6 +72,8 @@ def check(case, acc):
         return _check_rows(case, acc)
     if case[0] == "mismatch":
         return _check_mismatch(case, acc)
+    if case[0] == "mixed":
+        return _check_mixed(case, acc)
     return _check_numpy(case, acc)
 
 
@@ -248,3 +252,29 @@ def _check_numpy(case, acc):
     for name, b in layouts.items():
         cmp(acc, f"from_numpy_array({name})", R([r for r in a], dtype=dts), observe(lambda: RaggedArray.from_numpy_array(b), dt=True))
         cmp(acc, f"numpy-roundtrip({name})", A(a.tolist(), dtype=dts, shape=(n, m)), observe(lambda: RaggedArray.from_numpy_array(b).to_numpy_array(), dt=True))
+
+
+MIXED = ["int8", "float64", "int64", "bool", "uint8"]
+
+
+def _check_mixed(case, acc):
+    """rows handed over as numpy arrays of DIFFERENT element types (no dtype argument): every value must survive (small values, exact in
+    every candidate common type); which common type is chosen is not demanded"""
+    from npstructures import RaggedArray
+    _, lens, k = case
+    acc.feature("rows_of_different_dtypes")
+    rows_np = []
+    for i, l in enumerate(lens):
+        dt = MIXED[(i + k) % len(MIXED)]
+        if dt == "bool":
+            vals = [(j + i) % 2 == 0 for j in range(l)]
+        elif dt == "float64":
+            vals = [0.5 + j + i for j in range(l)]
+        else:
+            vals = [2 + 3 * j + i for j in range(l)]
+        rows_np.append(np.array(vals, dtype=dt))
+    if len({str(r.dtype) for r in rows_np if len(r)}) > 1:
+        acc.nontrivial()
+    exp = ("T", tuple(norm(r.tolist()) for r in rows_np))
+    cmp(acc, "mixed-dtype rows: tolist", exp, observe(lambda: [list(r) for r in RaggedArray([r.copy() for r in rows_np]).tolist()]))
+    cmp(acc, "mixed-dtype rows: lengths", A(lens, shape=(len(lens),)), observe(lambda: np.asarray(RaggedArray([r.copy() for r in rows_np]).lengths)))
